@@ -261,6 +261,9 @@ func (f *Frame) callByContract(ns *nodeState, x *ssa.Call, fc *FuncContract, fn 
 		vc.assumeNote("assumed, not proved: postcondition of " + key + ": " + e.Text)
 	}
 	for _, e := range fc.Ensures {
+		if e.Kind == "proves" {
+			continue
+		}
 		if mentionsAny(e.Expr, internal) {
 			continue // stated in terms of a proof witness / callee local: callers use the other forms
 		}
